@@ -41,3 +41,6 @@ def check(repo, rep, tier):
     from .. import rules_clause as rcl
     rep.run(rcl.rule_clause_head, cm, rep, 'C16.A11')
     rep.run(rcl.rule_term_code_denotes_term, cm, rep, 'C16.A12')
+    rep.run(re_.rule_token_kinds_keep_their_class, cm, rep, 'C16.A13')
+    # to_python converts what a term stands for now: every component it reads goes through to_python/get_value
+    rep.run(rs.rule_to_python_siblings, em, rep, 'C16.A14')
